@@ -23,6 +23,7 @@ import ast
 import os
 import sys
 
+import pynorm
 from py2coq_arith import Unsupported
 
 TRIGGERS = {  # method -> (table name, handler, expected time expression)
@@ -121,7 +122,7 @@ def dispatch(cls, name):
     fn = _fn(cls, name)
     if len(fn.args.args) != 2 or fn.args.vararg or fn.args.kwarg or fn.args.kwonlyargs or fn.args.defaults:
         raise Unsupported("signature of " + name)
-    body = _nodoc(fn.body)
+    body = pynorm.normalise(fn, cls, returns_none=True, only_inlining=True)
     if len(body) != 6:
         raise Unsupported(f"{name}: {len(body)} statements where 6 are expected")
     s_time, s_h, s_l, c1, c2, s_for = body
